@@ -4,6 +4,7 @@ two halves, user suspension, me/fnd/sys with subscribers, real peer-to-peer topi
 coq/Sys/TopicLife.v over Sys/Topic.v, wrapped once more by coq/Sys/TopicOffSetC03.v (s03c): the complete
 not-attached {set} (desc.private + sub.mode in one request, ops osetx / p2posetx), root sessions acting on behalf of
 another user (sess n u r, kind@obo) and the eviction of the sessions attached on behalf of a banned user."""
+import json
 import os
 import re
 import subprocess
@@ -11,6 +12,7 @@ import vlib
 from props import statelib
 from props import topiclib as T
 from props.statelib import kvs, eff
+from props import c03f
 
 PUB_KINDS = ("pub", "pubme", "pubfnd", "pubsys", "p2ppub", "osetx", "p2posetx")
 
@@ -1098,6 +1100,15 @@ def line_f(kind, l):
 
 
 def run(ctx):
+    # s03f: a replay of the p2p-creation layer runs that layer only
+    if ctx.replay:
+        rp = json.load(open(ctx.replay))
+        if rp.get("replay", {}).get("part") == "c03f":
+            ctx.coq_props(())
+            ctx.build_runner()
+            ctx.build_main()
+            ctx.coverage.update(c03f.run_layer(ctx, rp["replay"]["line"]))
+            ctx.finish()
     # this check runs its own driver and model runner through the shared flow of statelib
     T.gen_scenarios, T.run_impl, T.run_model = gen_scenarios, run_impl, run_model
     seen_known = set()
@@ -1121,4 +1132,5 @@ def run(ctx):
                  "harness/overlay/server/zz_verif_c03x_test.go: the {del topic} of the owner is held inside adapter.TopicDelete by a memverif call hook (db/memverif/zz_hook.go) while publishes are dispatched and awaited; {acc status=susp} is sent by a root session; the driver's sessions are not in the session store, so suspension does not evict them (eviction on suspension and login refusal are C11's)",
                  "s03c: harness/overlay/server/zz_verif_c03oz_test.go sends {set} with desc.private and sub in one JSON request, creates root sessions (authLvl put back after a restart at quiescence) and sends kind@obo requests through zz_verif_c04x_test.go's c04xOp (reused unchanged); the stored Private of every row and the stored rows of the p2p topics are read through memverif.DumpTopicDesc; the acting user of a request (tools/props/c03.py acting_user) is a python restatement of dispatch_as_c04; the law offline-set-ack-stores-want parses the mode with a python restatement of types.ParseAcs (letters JRWPASDO, N alone)",
                  "topic deletion is modelled for hub.topicUnreg case 1.1.1 only (owner, topic loaded, hard); other {del topic} requests are not issued"],
-        counts={"quick": 640, "thorough": 5600}, extra_cov=extra_cov)
+        counts={"quick": 640, "thorough": 5600},
+        extra_cov=lambda scns, impl: dict(extra_cov(scns, impl), **c03f.run_layer(ctx)))
